@@ -147,7 +147,7 @@ def recv_case(own, peer_ann, ident_len):
             rsp.status = 0xFF00
             rsp.data_set = dsutils.encode(ident, True, True)
             rsp.set_length()
-            for p in rsp.encode(pc, own):                # sized by what the requestor announced
+            for p in rsp.encode(pc, own or 2 ** 31):     # sized by what the requestor announced (0: no limit at all)
                 raw = p.encode()
                 sent_len[0] = max(sent_len[0], len(raw) - 6)
                 conn.sendall(raw)
@@ -210,8 +210,8 @@ def main(tier, seed):
     failing, broken, n_obl, n_ok = common.run_sharded(run, 'Max', nd.IMPORTS, 'mcase', [t for t, _h in obs],
                                                       [('corr', 'max_corr'), ('spec', 'max_spec')], size=25)
     recv = [recv_case(own, ann, n) for own, ann, n in
-            ([(16384, 4096, 8000), (0, 4096, 30000), (65536, 128, 2000)] if tier == 'quick' else
-             [(16384, 4096, 8000), (0, 4096, 30000), (65536, 128, 2000), (8192, 7, 5000), (4096, 4096, 3000),
+            ([(16384, 4096, 8000), (0, 4096, 30000), (0, 4096, 100000), (65536, 128, 2000)] if tier == 'quick' else
+             [(16384, 4096, 8000), (0, 4096, 30000), (0, 4096, 100000), (0, 0, 300000), (65536, 128, 2000), (8192, 7, 5000), (4096, 4096, 3000),
               (131072, 1024, 100000)])]
     f3, b3, n3, k3 = common.run_sharded(run, 'Recv', nd.IMPORTS, 'rvcase', [t for t, _h in recv],
                                         [('recv', 'recv_spec')], size=10)
